@@ -164,6 +164,25 @@ func genC15(e *emitter, tier string, seed uint64) {
 		e.run("C15.key", hex.EncodeToString(key), b01(r.chance(50)))
 		e.note("key")
 	}
+	// key hashes with 0..20 leading zero bytes (the address shrinks to 26 characters) and with tiny / huge tails
+	for z := 0; z <= 20; z++ {
+		for _, tail := range []byte{0x01, 0x08, 0x09, 0xff} {
+			h := make([]byte, 20)
+			for k := z; k < 20; k++ {
+				h[k] = byte(r.n(256))
+			}
+			if z < 20 {
+				h[z] = tail
+			}
+			for _, mainnet := range []bool{true, false} {
+				ad, err := bscript.NewAddressFromPublicKeyHash(h, mainnet)
+				if err != nil {
+					panic(err)
+				}
+				str(ad.AddressString, "valid-leading-zeros")
+			}
+		}
+	}
 	for i := 0; i < nAddr; i++ {
 		h := r.bytes(20)
 		if r.chance(20) {
